@@ -1463,6 +1463,9 @@ Proof.
   rewrite (st_don s S c E D0) in D. congruence.
 Qed.
 
+Lemma classic_stl s c : stlE s c \/ ~ stlE s c.
+Proof. Admitted.
+
 Lemma ful_elim f c s : (forall g, g <= f -> SP_below g) ->
   Step s -> Pre s -> In c (cset_of s0 i) -> k_elim (constr_of s0 c) = true ->
   wp (fulfill H (S f) c) s
@@ -1522,8 +1525,104 @@ Proof.
   { intros Dm m Hm. rewrite El2. apply (lt_in s c l0 ls lt r0 m Ss P Dm Hc E0 D0 Ea0 Es Er0 Elt Hm Hlt). }
   assert (HQ : forall m, In m L1 -> kp H s r0 m = false -> kp H s (k_ref k) m = false).
   { intros m _ X. rewrite <- X. apply kp_follow. symmetry. exact Fr0. }
-  admit.
-Admitted.
+  assert (K2 : forall m, In m l2 -> kp H s r0 m = true).
+  { intros m Hm. rewrite El2 in Hm. apply filter_In in Hm. apply Hm. }
+  assert (Stl2 : stlE s c -> l2 = ls /\ r0 = k_ref k).
+  { intros (_ & En & l & El & An & _ & Kp). fold k in En, El, Kp. rewrite Es in El. apply obs_inj in El. subst l.
+    split; [|exact En]. rewrite El2. unfold L1. rewrite (mins_of_anti H ls An).
+    rewrite <- (filter_all ls) at 2. apply filter_ext_in. intros m Hm. rewrite <- (Kp m Hm).
+    apply kp_follow. exact Fr0. }
+  clearbody l2.
+  destruct l2 as [|m1 [|m2 rest]]; cbn [FL.obs map].
+  - (* no alternative left *)
+    apply wp_fail. right. intros Dm. destruct lt as [|m lt']; [contradiction|].
+    apply (LT Dm m). left. reflexivity.
+  - (* one alternative left: the constraint is fulfilled, unify (ref, alt) *)
+    unfold upd_constr at 1. apply wp_modify. rewrite C2. cbn [k_ref k_alts k_strict].
+    assert (Es3 : set_constr s2 c (mkConstr true r0 (obs [m1]) (k_strict k) true) =
+                  set_constr s c (mkConstr true r0 [ob m1] (k_strict k) true)).
+    { unfold s2. cbn. rewrite si_upd_upd. reflexivity. }
+    rewrite Es3. clear Es3.
+    set (k3 := mkConstr true r0 [ob m1] (k_strict k) true). set (s3 := set_constr s c k3).
+    assert (Gm1 : gd m1) by (inversion G2; assumption).
+    assert (NS : ~ stlE s c).
+    { intros St. destruct (Stl2 St) as (X & _). destruct St as (_ & _ & l & El & _ & Le & _).
+      fold k in El. rewrite Es in El. apply obs_inj in El. subst l. rewrite <- X in Le. cbn in Le. lia. }
+    destruct (elim_upd_pres s c l0 ls (kp H s r0) true Ss P Hc E0 D0 Ea0 Ed Es HQ ltac:(discriminate)) as (S3 & P3).
+    fold k r0 L1 in S3, P3. rewrite <- El2 in S3, P3. change (obs [m1]) with [ob m1] in S3, P3. fold k3 s3 in S3, P3.
+    assert (C3 : constr_of s3 c = k3) by (unfold s3; apply constr_of_set_constr_same; exact Lc).
+    assert (LTm : Dom s t -> lt = [m1]).
+    { intros Dm. pose proof (LT Dm) as X. clear - X Nlt NDlt.
+      destruct lt as [|a [|b r]]; [contradiction| |].
+      - destruct (X a (or_introl eq_refl)) as [->|[]]. reflexivity.
+      - exfalso. destruct (X a (or_introl eq_refl)) as [<-|[]]. destruct (X b (or_intror (or_introl eq_refl))) as [<-|[]].
+        inversion NDlt as [|? ? N _]. apply N. left. reflexivity. }
+    assert (Post : forall s4, G s3 s4 -> dcl s4 (rho c) m1 -> (QuietB s3 s4 \/ Stl s4) -> (Dom s t -> Dom s4 t) ->
+      G s s4 /\ (k_done (constr_of s4 c) = true -> k_done (constr_of s4 c) = true) /\
+      (Quiet c (k_done (constr_of s4 c)) s s4 \/ Stl s4) /\ (Dom s t -> Dom s4 t)).
+    { intros s4 (S4 & P4 & T34) Dc Q Dm.
+      assert (D4 : k_done (constr_of s4 c) = true) by (apply (t2_done _ _ T34); rewrite C3; reflexivity).
+      split; [split; [exact S4|split; [exact P4|]]|split; [auto|split; [|exact Dm]]].
+      - apply (T2_mark s c k3 s4 m1 Ed Lc eq_refl eq_refl T34 Dc).
+      - destruct Q as [(Qc & Qk & Qs & Ql)|St]; [left|right; exact St].
+        split; [exact Qc|split; [|split; [exact Qs|split; [exact Ql|rewrite D4; discriminate]]]].
+        intros c' N. rewrite (constr_of_same s3 s4 c' Qk).
+        destruct (constr_of_set_constr s c k3 c') as [(_ & X & _)|X]; [contradiction|exact X]. }
+    destruct r0 as [w|o xs] eqn:Er.
+    + (* the reference is an unbound variable: below *)
+      assert (A : act s w).
+      { destruct (Hr c w Hci Ek Ed Er) as [A|St]; [exact A|contradiction]. }
+      assert (Rw : rho c = V w) by (apply (rho_var s c w Ss); rewrite <- Er0; exact Fr0).
+      assert (Kc : kpc H (cell_of s w) m1 = true).
+      { rewrite <- (K2 m1 (or_introl eq_refl)). unfold kp. rewrite Fr0. reflexivity. }
+      destruct (unify_var_form (S f') s3 (V w) w m1 (@inv_chain true s3 (lw_inv s3 (proj1 P3)))) as [(s' & Eu)|(g & Eg & Eu)];
+        [rewrite (follow_vars s3 s _ eq_refl); exact Fr0|exact Gm1| |].
+      { eapply wp_bind_er; [exact Eu|left; reflexivity]. }
+      injection Eg as <-.
+      eapply wp_bind with (Q1 := fun _ s4 => G s3 s4 /\ dclv s4 w m1 /\ (QuietB s3 s4 \/ Stl s4) /\ (Dom s3 t -> dclv t w m1 -> Dom s4 t)).
+      * eapply wp_eq; [exact Eu|].
+        eapply wp_conseq; [apply (BL f' ltac:(lia) w m1 s3 S3 P3 (act_same s s3 w eq_refl A) Gm1 Kc)|auto|].
+        intros e [->|Ne]; [left; reflexivity|right]. intros Dm. apply Ne. split; [exact Dm|].
+        pose proof (Hsing m1 (LTm Dm)) as X. rewrite Rw in X. exact X.
+      * intros _ s4 (G34 & Dv & Q & Dm). apply wp_gets. apply wp_ret.
+        apply Post; auto. { rewrite Rw. exact Dv. }
+        intros D. apply Dm; [exact D|]. pose proof (Hsing m1 (LTm D)) as X. rewrite Rw in X. exact X.
+    + (* the reference is resolved: nothing to do *)
+      assert (Ko : kpo H o m1 = true).
+      { rewrite <- (K2 m1 (or_introl eq_refl)). unfold kp. rewrite Fr0. reflexivity. }
+      eapply wp_bind_ok; [apply (unify_res_form f' s3 (O o xs) o xs m1 (Lub.follow_O _ _ _) Ko)|].
+      apply wp_gets. apply wp_ret. apply Post.
+      * split; [exact S3|split; [exact P3|apply T2_refl]].
+      * apply (dcl_res s3 c o xs m1 S3); [|exact Ko]. rewrite (follow_vars s3 s _ eq_refl), <- Er0. exact Fr0.
+      * left. split; [intros w; apply ceqw_refl|auto].
+      * auto.
+  - (* several alternatives left *)
+    apply wp_gets. rewrite C2. cbn [k_done]. apply wp_ret.
+    destruct (classic_stl s c) as [St|NS].
+    + destruct (Stl2 St) as (X & Y).
+      assert (E2 : s2 = s).
+      { unfold s2. rewrite X, Y, <- Es. rewrite <- (set_constr_same s c Lc) at 2. fold k. f_equal.
+        destruct k; cbn in *; subst; reflexivity. }
+      rewrite E2. split; [split; [exact Ss|split; [exact P|apply T2_refl]]|split; [discriminate|split; [|auto]]].
+      left. split; [intros w; apply ceqw_refl|split; [reflexivity|split; [reflexivity|split; [reflexivity|]]]].
+      intros _ _. unfold settled. fold k. rewrite Ek. exact St.
+    + assert (HA : forall w, follow s (k_ref k) = V w -> act s w).
+      { intros w Ew. destruct (Hr c w Hci Ek Ed Ew) as [A|St]; [exact A|contradiction]. }
+      destruct (elim_upd_pres s c l0 ls (kp H s r0) false Ss P Hc E0 D0 Ea0 Ed Es HQ (fun _ => HA)) as (S2 & P2).
+      fold k r0 L1 in S2, P2. rewrite <- El2 in S2, P2. fold s2 in S2, P2.
+      assert (Csame : forall c', c' <> c -> constr_of s2 c' = constr_of s c').
+      { intros c' N. unfold s2. destruct (constr_of_set_constr s c (mkConstr true r0 (obs (m1 :: m2 :: rest)) (k_strict k) false) c') as [(_ & X & _)|X]; [contradiction|exact X]. }
+      split; [split; [exact S2|split; [exact P2|]]|split; [discriminate|split; [|auto]]].
+      * apply T2_constr'; [reflexivity| |].
+        -- intros c' D. apply Csame. intros ->. fold k in D. congruence.
+        -- intros c' _ D. destruct (Nat.eq_dec c' c) as [->|N]; [rewrite C2 in D; discriminate|]. rewrite <- (Csame c' N). exact D.
+      * left. split; [intros w; apply ceqw_refl|split; [exact Csame|split; [reflexivity|split; [reflexivity|]]]].
+        intros _ _. unfold settled. rewrite C2. cbn [k_elim]. unfold stlE. rewrite C2. cbn [k_done k_ref k_alts].
+        split; [reflexivity|split; [rewrite (follow_vars s2 s _ eq_refl); exact Fr0|]].
+        exists (m1 :: m2 :: rest). split; [reflexivity|split; [|split; [cbn; lia|]]].
+        -- rewrite El2. apply anti_filter. apply (mins_of_PI H ls Pis).
+        -- intros m Hm. rewrite (kp_vars s2 s _ m eq_refl). apply K2. exact Hm.
+Qed.
 
 End D.
 End R.
